@@ -7,6 +7,7 @@
      [t |-> "cls", set |-> <<bytes>>, neg |-> B]  [..] / [^..] over ASCII letters and digits (set is a sequence)
      [t |-> "cat"|"alt", a |-> r, b |-> r]
      [t |-> "star"|"plus"|"opt", a |-> r]
+     [t |-> "bol"] / [t |-> "eol"]        ^ / $ without the m flag: beginning / end of the subject
    Subjects are arbitrary byte strings; "any" and negated classes consume one rune as Go decodes it. *)
 EXTENDS Integers, Sequences, Utf8
 
@@ -30,6 +31,8 @@ Ends(r, s, i) ==
     [] r.t = "star" -> StarClose(r.a, s, {i})
     [] r.t = "plus" -> StarClose(r.a, s, Ends(r.a, s, i))
     [] r.t = "opt"  -> {i} \cup Ends(r.a, s, i)
+    [] r.t = "bol"  -> IF i = 1 THEN {i} ELSE {}
+    [] r.t = "eol"  -> IF i = Len(s) + 1 THEN {i} ELSE {}
 
 FullMatch(r, s) == (Len(s) + 1) \in Ends(r, s, 1)           \* ^(?:r)$
 Search(r, s)    == \E i \in 1..(Len(s) + 1) : Ends(r, s, i) # {}   \* unanchored
@@ -49,6 +52,8 @@ ReText(r) ==
     [] r.t = "star" -> Grp(ReText(r.a)) \o <<42>>
     [] r.t = "plus" -> Grp(ReText(r.a)) \o <<43>>
     [] r.t = "opt"  -> Grp(ReText(r.a)) \o <<63>>
+    [] r.t = "bol"  -> <<94>>
+    [] r.t = "eol"  -> <<36>>
 
 \* handy constructors
 RLit(x) == [t |-> "lit", c |-> x]
@@ -61,4 +66,6 @@ RPlus(a) == [t |-> "plus", a |-> a]
 ROpt(a) == [t |-> "opt", a |-> a]
 RCls(S) == [t |-> "cls", set |-> S, neg |-> FALSE]
 RNCls(S) == [t |-> "cls", set |-> S, neg |-> TRUE]
+RBol == [t |-> "bol"]
+REol == [t |-> "eol"]
 =============================================================================
